@@ -9,6 +9,7 @@ import (
 	"time"
 
 	dragonboat "github.com/lni/dragonboat/v4"
+	"github.com/lni/dragonboat/v4/config"
 	"github.com/lni/dragonboat/v4/verifh/cluster"
 	"github.com/lni/dragonboat/v4/verifh/common"
 )
@@ -23,6 +24,12 @@ func replayMode(r *common.Run, sk *sink) {
 	n := r.Pick(16, 240)
 	for _, c := range r.MyCases(n) {
 		runCatchUp(r, sk, c, r.Rand("catchup", c), r.SubSeed("catchup-seed", c))
+		r.Flush()
+	}
+	// directed: the replica that is sending a snapshot over a slow link is restarted on its running
+	// NodeHost (StopShard + StartReplica) after a newer snapshot was recorded
+	for _, c := range r.MyCases(r.Pick(4, 32)) {
+		runRestartDuringSend(r, sk, c, r.Rand("restart-during-send", c), r.SubSeed("restart-during-send-seed", c))
 		r.Flush()
 	}
 	// directed: snapshots requested by the user whose compaction index lies below the one of the
@@ -347,4 +354,107 @@ func runCatchUpKind(r *common.Run, sk *sink, caseNo int, mostlyOnDisk bool, rng 
 			"cycles": cycles, "recover_from_snapshot_calls": recov, "prepare_snapshot_calls": prep, "save_snapshot_calls": saves,
 			"proposals_completed": done, "converged": converged})
 	}
+}
+
+// runRestartDuringSend: a follower lags behind the compacted log, the leader sends it a snapshot
+// image of two or more chunks over a slow link; meanwhile the leader records a newer snapshot and
+// its replica is restarted in-process (StopShard + StartReplica on the running NodeHost). Nothing
+// may crash; the follower must be caught up in the end (C08: a lagging follower is brought up to
+// date by a snapshot rather than left with a gap).
+func runRestartDuringSend(r *common.Run, sk *sink, caseNo int, rng *rand.Rand, seed int64) {
+	kind := []cluster.SMKind{cluster.Regular, cluster.Concurrent}[rng.Intn(2)]
+	store := cluster.Pebble
+	if rng.Intn(3) == 0 {
+		store = cluster.Tan
+	}
+	ballast := 4<<20 + 4096 + rng.Intn(1<<20) // three chunks: loaded when the send starts, and after one and two chunk delays
+	fmt.Printf("restart-during-send case %d sm %s store %s ballast %d\n", caseNo, kind, store, ballast)
+	c := cluster.NewCluster(cluster.Options{Hosts: 3, Seed: seed, RTTMs: 5, Store: store,
+		SMOpt: func(uint64, uint64) cluster.SMOptions {
+			return cluster.SMOptions{Kind: kind, RecordApply: true, Ballast: ballast}
+		}}, sk)
+	const shardID = 1
+	if err := c.StartAll(); err != nil {
+		r.Inconclusive(fmt.Sprintf("restart-during-send case %d: start failed: %v", caseNo, err))
+		return
+	}
+	defer c.StopAll()
+	members := c.Members(3)
+	replicas := map[uint64]int{1: 0, 2: 1, 3: 2}
+	shardCfg := func(i int) config.Config {
+		cfg := cluster.ShardConfig(shardID, uint64(i+1))
+		cfg.SnapshotEntries, cfg.CompactionOverhead = 10, 2
+		return cfg
+	}
+	for i := 0; i < 3; i++ {
+		if err := c.Hosts[i].StartReplica(members, false, kind, shardCfg(i)); err != nil {
+			r.Inconclusive(fmt.Sprintf("restart-during-send case %d: %v", caseNo, err))
+			return
+		}
+	}
+	if !waitFor(15*time.Second, func() bool { return c.LeaderHost(shardID, replicas) >= 0 }) {
+		r.Inconclusive(fmt.Sprintf("restart-during-send case %d: no leader", caseNo))
+		return
+	}
+	propose := func(n int) int {
+		ok := 0
+		for i := 0; i < n*4 && ok < n; i++ {
+			li := c.LeaderHost(shardID, replicas)
+			if li < 0 {
+				time.Sleep(20 * time.Millisecond)
+				continue
+			}
+			if nh := c.Hosts[li].NodeHost(); nh != nil {
+				ctx, cancel := context.WithTimeout(context.Background(), 500*time.Millisecond)
+				if _, err := nh.SyncPropose(ctx, nh.GetNoOPSession(shardID), cluster.MakeCmd(byte(rng.Intn(2)), cluster.NewID())); err == nil {
+					ok++
+				}
+				cancel()
+			}
+		}
+		return ok
+	}
+	propose(15)
+	li := c.LeaderHost(shardID, replicas)
+	if li < 0 {
+		r.Inconclusive(fmt.Sprintf("restart-during-send case %d: leader lost", caseNo))
+		return
+	}
+	f := (li + 1 + rng.Intn(2)) % 3
+	c.Net.Isolate(c.Hosts[f].Addr, false)
+	propose(35) // several snapshots, the log the follower misses is compacted
+	before := c.Net.Stats().Chunks
+	c.Net.SetChunkDelay(time.Duration(600+rng.Intn(300)) * time.Millisecond)
+	c.Net.HealAll()
+	sending := waitFor(5*time.Second, func() bool { return c.Net.Stats().Chunks > before })
+	if sending {
+		sk.Count("restart_during_send_snapshot_in_flight", 1)
+	}
+	// a newer snapshot on the sender, then its replica is restarted on the running NodeHost
+	lh := c.Hosts[li]
+	if nh := lh.NodeHost(); nh != nil {
+		propose(3)
+		ctx, cancel := context.WithTimeout(context.Background(), 2*time.Second)
+		_, _ = nh.SyncRequestSnapshot(ctx, shardID, dragonboat.SnapshotOption{})
+		cancel()
+		if nh.StopShard(shardID) == nil {
+			for try := 0; try < 200; try++ {
+				if lh.RestartReplica(members, kind, shardCfg(li)) == nil {
+					sk.Count("restart_during_send_in_process_restarts", 1)
+					break
+				}
+				time.Sleep(5 * time.Millisecond)
+			}
+		}
+	}
+	time.Sleep(2500 * time.Millisecond) // the remaining chunks of the image that was being sent
+	c.Net.SetChunkDelay(0)
+	propose(5)
+	converged := waitFor(30*time.Second, func() bool { return sameState(c, shardID, replicas) })
+	if !converged {
+		sk.Count("not_converged_after_heal", 1)
+		r.Inconclusive(fmt.Sprintf("restart-during-send case %d: replicas did not reach equal state within 30s", caseNo))
+	}
+	replayCheck(c, sk, shardID, replicas, caseNo, "after-restart-during-send")
+	r.Case(sending && converged, common.Hash("restart-during-send", caseNo, kind.String(), store.String()))
 }
